@@ -21,7 +21,7 @@ from simkit.runner import Engine, Result
 
 P = "C10"
 KEYS = ["left", "right", "up", "down", "home", "end", "backspace", "delete", "enter", "tab", "f5", "ctrl x", "page up", "esc"]
-CHARS = list("ab Z9.-") + ["é", "日", "本", "́", "\t"]
+CHARS = list("ab Z9.-") + ["é", "日", "本", "́", "\t", "𐍈"]  # (U+10348: four bytes in UTF-8, one column)
 
 
 def pos_inside_char(text: bytes, pos: int) -> bool:
